@@ -20,6 +20,7 @@ type Lexer struct {
 	file   string
 	peeks  []token.Token
 	isEOF  bool
+	eof    token.Token
 
 	customs map[string]token.TokenType
 }
@@ -346,14 +347,14 @@ func (l *Lexer) NextToken() token.Token {
 			t = newToken(token.ILLEGAL, l.char, line, index)
 		}
 	case 0x00: // EOF
-		t.Literal = ""
-		t.Type = token.EOF
-		t.Line = line
-		t.Position = index
+		// The end of the input (or a NUL byte) is reported at the same place
+		// however often the token is asked for.
 		if !l.isEOF {
+			l.eof = token.Token{Type: token.EOF, Line: line, Position: index, File: l.file}
 			l.NewLine()
 			l.isEOF = true
 		}
+		return l.eof
 	case 0x0A: // '\n'
 		t = newToken(token.LF, l.char, line, index)
 	default:
